@@ -5,6 +5,7 @@
      events  -  |  ev,ev,...        ev  = c<hex> client bytes | d<name>:<src> delivery
                                           | x<name>:<k> other client removes handle k
                                           | p<name> purge | w write side breaks
+                                          | t idle timeout | r read error
    outs    one field per reply that reached the client (greeting first), then one field
            S<namehex>=<k>:<size>.<k>:<size>... per mailbox named in init/deliveries.
    reply   <+|-|?>/<toks>/<body>   toks: - | t,t,..  (numbers, h<k> handles)
@@ -30,7 +31,20 @@ let id_of_handle (h : string) : n list =
   else [n_of_int 1000001]
 
 (* ---- parsing the input ---- *)
-let parse_init (f : string) : store =
+(* the stores' cap rule: after a delivery only the newest [cap] messages remain; the
+   evictions are explicit ERemove events (what the store does to a session's mailbox is,
+   for the session, a removal by somebody else) *)
+let evictions (cap : int) (st : store) (name : n list) : store * event list =
+  if cap <= 0 then (st, []) else
+  let rec go st acc =
+    let b = get_box st name in
+    if List.length b.mmsgs > cap then
+      let id = (List.hd b.mmsgs).sid in
+      go (remove_msg st name id) (ERemove (name, id) :: acc)
+    else (st, List.rev acc) in
+  go st []
+
+let parse_init (cap : int) (f : string) : store =
   if f = "-" then [] else
   List.fold_left (fun st box ->
     match String.index_opt box ':' with
@@ -38,7 +52,7 @@ let parse_init (f : string) : store =
     | Some i ->
         let name = fstr (String.sub box 0 i) in
         let srcs = split '.' (String.sub box (i + 1) (String.length box - i - 1)) in
-        List.fold_left (fun st s -> deliver st name (fstr s)) st srcs) [] (split ';' f)
+        List.fold_left (fun st s -> fst (evictions cap (deliver st name (fstr s)) name)) st srcs) [] (split ';' f)
 
 let split2 (s : string) : string * string =
   match String.index_opt s ':' with
@@ -55,6 +69,7 @@ let parse_events (f : string) : bevent list =
     | 'x' -> let (n, k) = split2 rest in BOther (ERemove (fstr n, [n_of_int (int_of_string k)]))
     | 'p' -> BOther (EPurge (fstr rest))
     | 'w' -> BOther EWriteBreak
+    | 't' | 'r' -> BOther EReadErr
     | _ -> failwith ("bad event " ^ ev)) (split ',' f)
 
 let box_names (init : string) (events : string) : string list =
@@ -134,10 +149,28 @@ let () =
     let (kind, ins, outs) = Mlutil.split_case line in
     match kind, ins with
     | "sess", [fl; init; events] ->
-        let fl' = if fl = "file" then File else Mem in
-        let st0 = parse_init init in
+        let (flname, cap) = match String.index_opt fl ':' with
+          | Some i -> (String.sub fl 0 i, int_of_string (String.sub fl (i + 1) (String.length fl - i - 1)))
+          | None -> (fl, 0) in
+        let fl' = if flname = "file" then File else Mem in
+        let st0 = parse_init cap init in
         let bes = parse_events events in
-        let evs = expand [] bes in
+        (* byte chunks -> lines (Coq: feed), cap evictions -> explicit removals *)
+        let (_, _, revs) =
+          List.fold_left (fun (w, pend, acc) be ->
+            let es, pend' = match be with
+              | BBytes b -> let (ls, p) = feed (frev pend) b in (List.map (fun l -> ELine l) ls, p)
+              | BOther e -> ([e], pend) in
+            List.fold_left (fun (w, pend, acc) e ->
+              let w = wstep fl' w e in
+              match e with
+              | EDeliver (name, _) when cap > 0 ->
+                  let (_, rm) = evictions cap w.w_store name in
+                  let w = List.fold_left (wstep fl') w rm in
+                  (w, pend, List.rev_append rm (e :: acc))
+              | _ -> (w, pend, e :: acc)) (w, pend', acc) es)
+            (init_world st0, [], []) bes in
+        let evs = List.rev revs in
         let w = run fl' (init_world st0) (evs @ [EEof]) in
         let names = box_names init events in
         let model_outs =
